@@ -1240,6 +1240,10 @@ def _unescape(s):
 # ------------------------------------------------------------------------------------------ intrinsics (std/core)
 def intrinsic(eng, st, fr, callee, base, args, R):
     deref = lambda v: eng.deref(st, v)
+    m = re.match(r'<(\w+) as (?:std::cmp::|core::cmp::)?Ord>::(min|max)$', base)
+    if m and m.group(1) in INT_TYPES and len(args) == 2 and isinstance(args[0], V) and isinstance(args[1], V):
+        ty, fn = m.group(1), m.group(2); w, sg = bvw(ty); a, b = args[0].t, args[1].t; lt = (a < b) if sg else ULT(a, b)
+        return R(V(If(lt, a, b) if fn == 'min' else If(lt, b, a), ty))
     m = re.match(r'core::num::<impl (\w+)>::(\w+)$', base)
     if m:
         ty, fn = m.group(1), m.group(2); w, sg = bvw(ty); a = args[0]
